@@ -11,7 +11,14 @@ Inductive rspec :=
   | RAlways (a : iaction) (s : N)
   | RContains (m : bytes) (a : iaction) (s : N)     (* REQUEST_BODY / RESPONSE_BODY @contains m *)
   | RStatus (c : N) (a : iaction) (s : N)            (* RESPONSE_STATUS @streq c *)
-  | RHeader (k v : bytes) (a : iaction) (s : N).     (* REQUEST_HEADERS:k / RESPONSE_HEADERS:k @streq v *)
+  | RHeader (k v : bytes) (a : iaction) (s : N)      (* REQUEST_HEADERS:k / RESPONSE_HEADERS:k @streq v *)
+  | RTxFlag (a : iaction) (s : N).                   (* phase 4: TX:c18flag @streq 1 (set by a ctl rule that matched) *)
+
+(* a non-disruptive rule of phase 1-3: condition (an rspec whose action is ignored), then
+   setvar:tx.c18flag=1 and the ctl actions *)
+Inductive cspec :=
+  | CNone
+  | CRule (cond : rspec) (e : ctl).
 
 (* internal/actions deny.go, drop.go, redirect.go: the interruption a rule with status s records *)
 Definition spec_intr (a : iaction) (s : N) : intr :=
@@ -28,22 +35,46 @@ Definition eval_spec (sp : rspec) (code : N) (hd : headers) (data : bytes) : opt
   | RContains m a s => if is_substring m data then Some (spec_intr a s) else None
   | RStatus c a s => if code =? c then Some (spec_intr a s) else None
   | RHeader k v a s => if existsb (bytes_eqb v) (h_get k hd) then Some (spec_intr a s) else None
+  | RTxFlag _ _ => None
+  end.
+
+Definition cfired (k : cspec) (code : N) (hd : headers) (data : bytes) : bool :=
+  match k with
+  | CNone => false
+  | CRule cond _ => match eval_spec cond code hd data with Some _ => true | None => false end
+  end.
+Definition cctl (k : cspec) (code : N) (hd : headers) (data : bytes) : ctl :=
+  match k with
+  | CRule _ e => if cfired k code hd data then e else ctl_none
+  | CNone => ctl_none
   end.
 
 Definition mk_config (eng : engine) (rqa : bool) (rql : N) (rqact : laction)
     (rsa : bool) (rsl : N) (rsact : laction) (mimes : list bytes)
-    (p1 p2 p3 p4 : rspec) (reqh : headers) : config :=
+    (p1 p2 p3 p4 : rspec) (k1 k2 k3 : cspec) (reqh : headers) (body : bytes) : config :=
+  let e1 := cctl k1 0 reqh [] in
+  (* what phase 2 sees, with the access / limit in force after phase 1 *)
+  let qacc := match k_qacc e1 with Some b => b | None => rqa end in
+  let qlim := match k_qlim e1 with Some n => n | None => rql end in
+  let buffered := if qacc then takeN qlim body else [] in
+  let flag12 := cfired k1 0 reqh [] || cfired k2 0 reqh buffered in
   mkcfg eng rqa rql rqact rsa rsl rsact mimes
         (eval_spec p1 0 reqh [])
         (fun b => eval_spec p2 0 reqh b)
         (fun c h => eval_spec p3 c h [])
-        (fun c h b => eval_spec p4 c h b).
+        (fun c h b => match p4 with
+                      | RTxFlag a s => if flag12 || cfired k3 c h [] then Some (spec_intr a s) else None
+                      | _ => eval_spec p4 c h b
+                      end)
+        e1
+        (fun b => cctl k2 0 reqh b)
+        (fun c h => cctl k3 c h []).
 
 Inductive case :=
   | Case (sk : bool) (eng : engine)
          (rqa : bool) (rql : N) (rqact : laction)
          (rsa : bool) (rsl : N) (rsact : laction) (mimes : list bytes)
-         (p1 p2 p3 p4 : rspec)
+         (p1 p2 p3 p4 : rspec) (k1 k2 k3 : cspec)
          (reqh : headers) (body : bytes) (ops : list hop)
          (o_invoked : bool) (o_read : bytes)
          (o_intr : option (iaction * N))
@@ -107,13 +138,13 @@ Fixpoint tracked_of (ops : list hop) : list bytes :=
 
 Definition model_of (c : case) : result :=
   match c with
-  | Case sk eng rqa rql rqact rsa rsl rsact mimes p1 p2 p3 p4 reqh body ops _ _ _ _ _ _ _ _ =>
-    wrap_handler (mk_config eng rqa rql rqact rsa rsl rsact mimes p1 p2 p3 p4 reqh) sk body ops
+  | Case sk eng rqa rql rqact rsa rsl rsact mimes p1 p2 p3 p4 k1 k2 k3 reqh body ops _ _ _ _ _ _ _ _ =>
+    wrap_handler (mk_config eng rqa rql rqact rsa rsl rsact mimes p1 p2 p3 p4 k1 k2 k3 reqh body) sk body ops
   end.
 
 Definition ok (c : case) : bool :=
   match c with
-  | Case sk eng rqa rql rqact rsa rsl rsact mimes p1 p2 p3 p4 reqh body ops
+  | Case sk eng rqa rql rqact rsa rsl rsact mimes p1 p2 p3 p4 k1 k2 k3 reqh body ops
          o_invoked o_read o_intr o_trace o_status o_headers o_body o_infos =>
     let tracked := tracked_of ops in
     let r := model_of c in
